@@ -9,12 +9,14 @@ import (
 	"crypto"
 	"crypto/rand"
 	"crypto/x509"
+	"errors"
 	"io"
 	"sync"
 	"sync/atomic"
 
 	"github.com/sassoftware/relic/v8/config"
 	"github.com/sassoftware/relic/v8/lib/passprompt"
+	"github.com/sassoftware/relic/v8/lib/verifhook"
 	"github.com/sassoftware/relic/v8/token"
 	"github.com/sassoftware/relic/v8/token/filetoken"
 )
@@ -103,7 +105,8 @@ func init() {
 }
 
 type fakeToken struct {
-	name string
+	closed atomic.Bool
+	name   string
 	base token.Token
 	conf *config.Config
 }
@@ -132,14 +135,21 @@ func (t *fakeToken) Ping(ctx context.Context) error {
 
 func (t *fakeToken) Close() error {
 	logCall(Call{Token: t.name, Op: "Close"})
+	verifhook.Emit("TokenClose", "token", t.name)
+	t.closed.Store(true)
 	return nil
 }
+
+var errClosed = errors.New("veriffake: token is closed")
 
 func (t *fakeToken) Config() *config.TokenConfig { return t.base.Config() }
 
 func (t *fakeToken) GetKey(ctx context.Context, keyName string) (token.Key, error) {
 	want := token.KeyID(ctx)
 	logCall(Call{Token: t.name, Op: "GetKey", Key: keyName, KeyID: string(want)})
+	if t.closed.Load() { // like a real token: unusable once closed
+		return nil, errClosed
+	}
 	s := t.script()
 	s.mu.Lock()
 	gk, idf, sg := s.GetKeyFn, s.KeyIDFn, s.Signer
@@ -198,6 +208,9 @@ func (k *fakeKey) Sign(r io.Reader, digest []byte, opts crypto.SignerOpts) ([]by
 
 func (k *fakeKey) SignContext(ctx context.Context, digest []byte, opts crypto.SignerOpts) ([]byte, error) {
 	logCall(Call{Token: k.tok.name, Op: "Sign", Key: k.name, KeyID: string(k.id)})
+	if k.tok.closed.Load() {
+		return nil, errClosed
+	}
 	s := k.tok.script()
 	s.mu.Lock()
 	fn := s.SignFn
@@ -206,6 +219,9 @@ func (k *fakeKey) SignContext(ctx context.Context, digest []byte, opts crypto.Si
 		if err := fn(ctx, k.name); err != nil {
 			return nil, err
 		}
+	}
+	if k.tok.closed.Load() { // closed while the (slow) signature was in progress
+		return nil, errClosed
 	}
 	return k.Key.SignContext(ctx, digest, opts)
 }
